@@ -177,7 +177,7 @@ pub fn main(args: &[String]) -> i32 {
             if !mode.init_online {
                 d.handshake();
             }
-            let k: usize = arg(args, "--chunks", "300").parse().unwrap();
+            let k: usize = arg(args, "--chunks", "420").parse().unwrap();
             for i in 0..k {
                 let v = i % 5 != 4;
                 d.send(0, v, i % 2);
